@@ -2,5 +2,6 @@ SPECIFICATION GenSpec
 CONSTANTS
   MaxU32 = 7
   RejectNegativeDelta = TRUE
+  TsOnly = FALSE
   MaxOps = 4
 CHECK_DEADLOCK FALSE
